@@ -162,9 +162,8 @@ def variant_dir(scratch, ob):
     loops = tuple(ob.get("loops", ()))
     renames = tuple(ob.get("rename_selfcalls", ()))
     only = tuple(ob.get("loops_only", ()))
-    if not loops and not renames:
-        return os.path.join(scratch, "clean"), []
-    key = hashlib.sha1(repr((loops, renames, only)).encode()).hexdigest()[:10]
+    wide = ob.get("char", "A") == "W" and ob.get("route") != "L"
+    key = hashlib.sha1(repr((loops, renames, only, wide)).encode()).hexdigest()[:10]
     d = os.path.join(scratch, "v_" + key)
     marker = os.path.join(d, ".done")
     if os.path.exists(marker):
@@ -185,6 +184,10 @@ def variant_dir(scratch, ob):
     for fname, funcs in renames:
         n = S.rename_selfcalls(tmp, fname, funcs)
         injected.append("%s: %d self-calls redirected to twin" % (fname, n))
+    injected.extend(S.inject_waivers(tmp))
+    if wide:
+        n = S.rewrite_wide_literals(tmp)
+        injected.append("W pass: %d wide string literals rewritten to array compound literals (CBMC wide-literal size bug)" % n)
     S.verify_undo(tmp)
     shutil.move(tmp, d)
     json.dump(injected, open(marker, "w"))
@@ -281,6 +284,21 @@ def run_obligation(ob, scratch, tier, kf_defines, prop=None):
     if rc != 0:
         res["reason"] = "goto-cc failed: " + (err or out)[-1500:]
         return res
+    # callees replaced by contract stubs (route H): remove the real body, link the stub translation unit
+    for fname, stubfile in ob.get("replace_bodies", []):
+        rc, out, err = sh(["goto-instrument", "--remove-function-body", fname, "a.gb", "a_nb.gb"], wd, 120, 4, log)
+        if rc != 0:
+            res["reason"] = "goto-instrument --remove-function-body %s failed: %s" % (fname, (err or out)[-600:])
+            return res
+        sgb = "stub_%s.gb" % fname
+        rc, out, err = sh(["goto-cc"] + inc + dflags + ["-c", os.path.join(VERIF, "stubs", stubfile), "-o", sgb], wd, 120, 4, log)
+        if rc != 0:
+            res["reason"] = "goto-cc (stub %s) failed: %s" % (stubfile, (err or out)[-600:])
+            return res
+        rc, out, err = sh(["goto-cc", "a_nb.gb", sgb, "--function", entry, "-o", "a.gb"], wd, 120, 4, log)
+        if rc != 0:
+            res["reason"] = "linking stub %s failed: %s" % (stubfile, (err or out)[-600:])
+            return res
     binf = "a.gb"
     uw = resolve(ob.get("unwindset", {}), tier)
     if any(k.endswith(".*") for k in uw):
